@@ -8,7 +8,8 @@
 From Coq Require Import List NArith ZArith Bool.
 From GQL Require Import Base.Bytes Cache.LRU Cache.CacheSpec Proofs.CacheProofs
      Run.C06run Proofs.CacheRunProofs Cache.Normalize Proofs.CacheNormalizeProofs Proofs.CacheAdmProofs
-     Cache.Prepared Proofs.CachePreparedProofs Cache.NormalizeHeap Proofs.CacheNormalizeHeapProofs.
+     Cache.Prepared Proofs.CachePreparedProofs Cache.NormalizeHeap Proofs.CacheNormalizeHeapProofs
+     Proofs.CacheNormalizeRefineProofs.
 Import ListNotations.
 Open Scope N_scope.
 
@@ -247,10 +248,25 @@ Section NormalizeStatements.
     intros root hs ps st hs' ps' H Hb.
     exact (caller_cells_unchanged value_eqb cval_eqb synth_name field_def arg_ty tc_obj coerce lit_valid var_coerce taken root hs ps st hs' ps' H Hb).
   Qed.
+
+  (* ... and what the walk leaves in the clone's cells is the functional
+     normalisation of the caller's document, with the same synthetic
+     definitions: the two theorems above are about what the code-shaped
+     algorithm returns. *)
+  Theorem C06_normalize_in_place_refines :
+    forall root (hs : @hst L) (ps : list (@psel L)) st hs' ps',
+      hnormalize value_eqb cval_eqb synth_name field_def arg_ty tc_obj coerce lit_valid var_coerce taken root hs ps = (st, hs', ps') ->
+      Forall (fun i => i < h_next hs) (flat_map pids ps) ->
+      normalize' root (map (read_sel (h_heap hs)) ps) = (st, map (read_sel (h_heap hs')) ps').
+  Proof.
+    intros root hs ps st hs' ps' H Hb.
+    exact (hnormalize_refines value_eqb cval_eqb synth_name field_def arg_ty tc_obj coerce lit_valid var_coerce taken root hs ps st hs' ps' H Hb).
+  Qed.
 End NormalizeStatements.
 Print Assumptions C06_normalize_transparent.
 Print Assumptions C06_normalize_validation_preserved.
 Print Assumptions C06_original_unchanged.
+Print Assumptions C06_normalize_in_place_refines.
 
 (* Prepared plans (Cache/Prepared.v): one plan executed any number of times,
    with any variables and roots, the lazily filled slots carried from one
